@@ -6,13 +6,33 @@
    one overlaps, every bad file reported exactly once with the right kind and
    nothing else reported.
 
-   Unbounded: the no-bad-file case (every layout, L, handle table).
+   Unbounded: [C10_refines] -- EVERY layout of positive-length files, every piece
+   length, every disk (any subset of files missing or of any wrong size, any
+   content) and every initial handle table; and the no-bad-file case
+   [C10_no_bad_file] (which also admits zero-length entries).
    Bounded (finite domain enumerated and decided inside Coq, bound in the
-   statement): all damage plans for the listed sizes / piece lengths / file
-   counts.  The unbounded refinement for arbitrary damage plans is NOT proved
-   (see DESIGN.md); zero-length bad entries are refuted. *)
-From Torf Require Import Base Extracted Geometry Stream IterSpec ChunkProofs IterProofs IterBounded.
+   statement): [C10_refines_bounded], kept as the executable form of the same
+   statement ([case_ok] is what the harness' oracle mirrors).
+   Zero-length bad entries are refuted ([C10_zero_length_refuted]). *)
+From Torf Require Import Base Extracted Geometry Stream IterSpec GeometryProofs ChunkProofs IterProofs IterBounded IterDamage.
 Open Scope Z_scope.
+
+(* [expected d L fs p] (proofs/IterDamage.v): None if a bad file (absent from the disk [d] or
+   present with a length other than the recorded one) has a byte in piece p, otherwise the bytes
+   [p*L, min((p+1)*L, total)) of the stream in which every good file contributes its content.
+   [report_of d f]: nothing for a good file, one read error (missing) or one size error naming f
+   otherwise.  So: exactly one item per piece, in piece order; exact bytes in every piece no bad
+   file overlaps; no data in every piece one overlaps; every bad file reported exactly once with
+   the right kind (even: in file order), nothing else reported. *)
+Theorem C10_refines : forall d L fs h,
+  0 < L -> allpos fs -> NoDup fs ->
+  exists items,
+    iter_pieces d h fs L = Ok items /\
+    map piece_of items = map (expected d L fs) (zrange 0 (cdiv (total_size fs) L)) /\
+    zlen items = cdiv (total_size fs) L /\
+    flat_map excs_of items = flat_map (report_of d) fs.
+Proof. intros d L fs h. exact (iter_pieces_refines d L fs h). Qed.
+Print Assumptions C10_refines.
 
 Theorem C10_no_bad_file : forall d L fs h,
   0 < L -> intact d fs ->
@@ -62,6 +82,16 @@ Proof.
     exact (proj1 zero_length_reported_twice).
 Qed.
 Print Assumptions C10_zero_length_refuted.
+
+(* non-vacuity of C10_refines: a layout with a short and a missing file meets the hypotheses,
+   and the expected items are not trivial *)
+Example C10_refines_example :
+  let d := disk_of [3; 1; 1; 6] [DShort; DOk; DMissing; DOk] in
+  let fs := files_of [3; 1; 1; 6] in
+  (forallb (fun f => 0 <? fsize f) fs = true) /\
+  map (expected d 4 fs) (zrange 0 (cdiv (total_size fs) 4)) = [None; None; Some [9; 10; 11]%N] /\
+  flat_map (report_of d) fs = [(XSize, 0); (XMissing, 2)].
+Proof. vm_compute. repeat split; reflexivity. Qed.
 
 (* non-vacuity: a bad file ending exactly on a piece boundary, its neighbour untouched *)
 Example C10_example :
